@@ -194,7 +194,50 @@ class CalibrationError(RuntimeError):
     pass
 
 
-def calibrate(emission: dict, seed: int = 0, n_random: int = 12, lhigh: int = 120, tol: float = 2e-12) -> dict:
+_TV = None
+
+
+def _tv_job(job):
+    import mpmath as mp
+    from .expr_eval import evaluate
+    i0, th, ph = job
+    trees = _TV["trees"]
+    out = {k: np.zeros((len(trees), len(th))) for k in ("y", "dtheta", "dphi")}
+    for j in range(len(th)):
+        env = {"theta": mp.mpf(float(th[j])), "phi": mp.mpf(float(ph[j]))}
+        for t in trees:
+            for k in out:
+                out[k][int(t["row"]), j] = float(evaluate(t[k], env, "mp"))
+    return i0, out
+
+
+def tree_values(emission: dict, th, ph, procs: int = 16) -> dict:
+    """Values of the emitted trees y / dtheta / dphi (rows as given by the spec) at float angles,
+    evaluated in 50-digit arithmetic, in parallel."""
+    global _TV
+    import multiprocessing as mp_
+    _TV = emission
+    n = len(th)
+    nrows = len(emission["trees"])
+    out = {k: np.zeros((nrows, n)) for k in ("y", "dtheta", "dphi")}
+    step = max(1, -(-n // (2 * procs)))
+    jobs = [(i, th[i: i + step], ph[i: i + step]) for i in range(0, n, step)]
+    if procs <= 1:
+        res = map(_tv_job, jobs)
+        for i0, o in res:
+            for k in out:
+                out[k][:, i0: i0 + o[k].shape[1]] = o[k]
+    else:
+        with mp_.get_context("fork").Pool(procs) as pool:
+            for i0, o in pool.imap_unordered(_tv_job, jobs):
+                for k in out:
+                    out[k][:, i0: i0 + o[k].shape[1]] = o[k]
+    _TV = None
+    return out
+
+
+def calibrate(emission: dict, seed: int = 0, n_random: int = 12, lhigh: int = 120, tol: float = 2e-12,
+              procs: int = 16) -> dict:
     """Compare this module with the definition trees of Harmonics.tla (``emission`` = the JSON
     written by TLC).  Raises CalibrationError on any disagreement.  Returns the measured errors.
 
@@ -222,18 +265,24 @@ def calibrate(emission: dict, seed: int = 0, n_random: int = 12, lhigh: int = 12
     dth, dph = dylm_angles(lt, th, ph)
     err = {"y": 0.0, "dtheta": 0.0, "dphi": 0.0}
     for t in emission["trees"]:
-        r = int(t["row"])
-        if r != row(int(t["l"]), int(t["m"])):
+        if int(t["row"]) != row(int(t["l"]), int(t["m"])):
             raise CalibrationError(f"row layout differs from the specification at (l,m)=({t['l']},{t['m']})")
-        for i, (a, b) in enumerate(angles):
-            env = {"theta": mp.mpf(th[i]), "phi": mp.mpf(ph[i])}  # the float actually used
-            for key, arr in (("y", mine), ("dtheta", dth), ("dphi", dph)):
-                v = float(evaluate(t[key], env, "mp"))
-                e = abs(arr[r, i] - v) / max(1.0, abs(v))
-                err[key] = max(err[key], e)
+    expected = tree_values(emission, th, ph, procs)
+    for key, arr in (("y", mine), ("dtheta", dth), ("dphi", dph)):
+        v = expected[key]
+        err[key] = float((np.abs(arr[: v.shape[0]] - v) / np.maximum(1.0, np.abs(v))).max())
     for k, e in err.items():
         if not e <= tol:
             raise CalibrationError(f"vf/ylm.py disagrees with Harmonics.tla trees: {k} error {e:.3e} > {tol}")
+    # Legendre polynomials (used on the right-hand side of the addition theorem)
+    xs = np.array([-1.0, -0.6, -0.28, 0.0, 0.352, 0.8, 1.0])
+    pl = legendre(lt, xs)
+    e_leg = 0.0
+    for l, t in enumerate(emission["legendre"]):
+        for j, xv in enumerate(xs):
+            e_leg = max(e_leg, abs(float(evaluate(t, {"cosgamma": mp.mpf(float(xv))}, "mp")) - pl[l, j]))
+    if not e_leg <= tol:
+        raise CalibrationError(f"legendre() disagrees with Harmonics.tla: {e_leg:.3e}")
     # unit vectors
     xyz = np.stack([np.sin(ph) * np.cos(th), np.sin(ph) * np.sin(th), np.cos(ph)], axis=1)
     e_xyz = float(np.abs(ylm_xyz(lt, xyz) - mine).max())
@@ -255,6 +304,6 @@ def calibrate(emission: dict, seed: int = 0, n_random: int = 12, lhigh: int = 12
     e_mom = float(np.abs(sphere_moments(lhigh, a, w, chunk=16) - ya @ w).max())
     if not e_mom <= 1e-11:
         raise CalibrationError(f"sphere_moments vs explicit sum: {e_mom:.3e}")
-    return {"tree_value": err["y"], "tree_dtheta": err["dtheta"], "tree_dphi": err["dphi"],
+    return {"tree_value": err["y"], "tree_dtheta": err["dtheta"], "tree_dphi": err["dphi"], "legendre": e_leg,
             "xyz_vs_angles": e_xyz, "addition_theorem_rel": e_add, "moments": e_mom,
             "angles": len(angles), "trees": len(emission["trees"])}
